@@ -27,7 +27,7 @@ def main(tier):
         if rp.violated or rp.error:
             raise vlib.Infra("Smt.tla parallel-commit simulation failed: %s %s" % (rp.violated, rp.error))
         # 2. real trees, K-bit keys
-        plans = [(3, 400, False), (4, 300, False), (6, 120, True)] if tier == "quick" else [(3, 5000, False), (4, 4000, False), (6, 1500, True), (8, 600, True)]
+        plans = [(3, 400, False), (4, 300, False), (8, 100, True)] if tier == "quick" else [(3, 5000, False), (4, 4000, False), (8, 1200, True), (10, 400, True)]
         lines_total, lines_ok, par_batches = 0, 0, 0
         samples = []
         findings = {}
